@@ -209,7 +209,7 @@ def r3(cx, ast):
     cand = [t for _, t in quotes(f) if "fnget_description(" in t]
     last = cand[-1] if cand else ""
     cx.check("fnget_description(&self)->&'staticstr{#description}" in last and "fnget_name(&self)->&'staticstr{#iname}" in last
-             and re.search(r"#server_method_impls(\w+)=>\{?call\.reply_method_not_found\(String::from\(\1\)\)", last) is not None and re.search(r"match\w+\.method\.as_ref\(\)\{", last) is not None, "C08.R3", "gen:proxy-template", GEN, "the Interface impl template does not return #description/#iname or lacks the MethodNotFound fallback",
+             and re.search(r"(?:#server_method_impls|#\(#server_method_impls\),\*,?)(\w+)=>\{?call\.reply_method_not_found\(String::from\(\1\)\)", last) is not None and re.search(r"match\w+\.method\.as_ref\(\)\{", last) is not None, "C08.R3", "gen:proxy-template", GEN, "the Interface impl template does not return #description/#iname or lacks the MethodNotFound fallback",
              note_ok="get_description -> #description, get_name -> #iname, fallback MethodNotFound(m)")
 
 
